@@ -222,6 +222,37 @@ def run(ctx, rep):
                        'the output file is opened without truncation: stale bytes of a longer previous file survive and the JSON does not decode')
             else:
                 rep.ob('R19.7', f'output-truncated:{fn}', None, f'writer {show(w, maxd=3)[:80]}')
+    # ---- R19.8 the parameter file is not held to a stricter standard than the command line ------------------------------
+    # what -p wrote comes from values the command line accepted; reading it back may reject only what the validated types'
+    # own conversions (shared with the command line) reject.  A hand-written function on the Deserialize route (deserialize_with,
+    # a manual impl) that raises an error of its own is a check the command line never made.
+    from ..facts import callee_name as _cn
+    L = ctx.lib
+    roots = [p_ for p_, b_ in L.bodies.items() if b_.impl_of and (b_.impl_of.get('trait') or '').split('<')[0].endswith('::Deserialize')
+             and last_seg(p_) == 'deserialize']
+    rep.floor('Deserialize impls of the library', len(roots), 8)
+    on_route = set()
+    for r_ in roots:
+        on_route |= L.reachable_from(r_)
+    ERRS = ('de::Error::custom', 'de::Error::invalid_value', 'de::Error::invalid_type', 'de::Error::invalid_length',
+            'de::Error::missing_field', 'de::Error::unknown_field', 'de::Error::unknown_variant', 'de::Error::duplicate_field')
+    n_hand = 0
+    for p_ in sorted(on_route):
+        b_ = L.bodies.get(p_)
+        if b_ is None or '::_::' in p_ or b_.derived:
+            continue            # generated by the derive (inside its anonymous const)
+        names_ = [(_cn(t_) or '') for _, t_ in b_.calls()]
+        raises = [n_ for n_ in names_ if n_.endswith(ERRS)]
+        if not raises:
+            continue
+        n_hand += 1
+        shared_v = [n_ for n_ in names_ if n_ in L.bodies and L.bodies[n_].impl_of and
+                    (L.bodies[n_].impl_of.get('trait') or '').split('<')[0].endswith(('TryFrom', 'FromStr'))]
+        rep.ob('R19.8', f'file-only-rejection:{last_seg(p_)}', None if shared_v else False,
+               f'{p_} raises {raises[0].split("::")[-1]} after calling the shared conversion {shared_v[0] if shared_v else ""}: not decided' if shared_v else
+               f'{p_} is reached only when a parameter file is read and rejects values on its own ({raises[0].split("::")[-1]}): a file written '
+               'by -p from an accepted command line can be refused by -i', where=b_.span)
+    rep.extra['hand_written_rejections_on_deserialize_route'] = n_hand
     # C18 is a premise of this property (a value of a validated type is in range): its construction discipline is included
     from . import shared, c18 as _c18
     shared.include(ctx, rep, _c18.run, {'R18.1', 'R18.2', 'R18.3', 'R18.4', 'R18.5'}, why='out-of-range / non-numeric input is rejected by the type')
